@@ -17,7 +17,6 @@ na = {
 }
 pending = {
  "C02":"simulation target (faults on stored bytes / streams), check not built yet in this revision",
- "C09":"simulation target (histories + plug-in faults), check not built yet in this revision",
 }
 checks = {
  "C19": dict(cat="fault_enumeration", ref="DESIGN.md §3 C19, §2.5",
@@ -45,7 +44,11 @@ checks["C12"]=dict(cat="fault_enumeration", ref="DESIGN.md §3 C12",
    text="the real Symbolizer runs against scripted object-file and symbol-service plug-ins; after recording the fault-free execution every plug-in call is failed in turn with every applicable failure kind (exhaustive single-fault coverage per generated profile), then seeded multi-fault plans; the oracle is a frame condition on a deep before/after snapshot: samples, values, labels, stacks, addresses and mapping ranges untouched, symbolized mappings left alone without force, names never emptied, ids unique, profile valid - also when Symbolize returns an error.",
    note="trusted: the scripted plug-ins return only answers a real binutils/symbolz endpoint can return; 'already carries symbols' = HasFunctions",
    tech="deterministic simulation: scripted plug-ins behind the ObjTool/Transport seams, exhaustive single-fault enumeration per call + seeded fault sequences, frame-condition oracle")
-order = ["C08","C10","C12","C16","C19","C20"]
+checks["C09"]=dict(cat="exploration", ref="DESIGN.md §3 C09",
+   text="seeded interactive, command-line and web sessions of the real driver.PProf over odd-but-valid profiles, with hostile lines, option values and query strings from a grammar plus noise, a usability probe after every hostile step, and a per-run swarm of faults in the terminal, output writer, object tool, external tools and the simulated disk; any panic (main task, fetch tasks, handlers, completer), deadlock, hang (step cap), os.Exit or a session that stops reading input is a violation.",
+   note="trusted: the simulated plug-ins return only well-formed answers; hang detection is a step cap on scheduling points of the simulated run plus the worker watchdog",
+   tech="deterministic simulation: seeded session histories with plug-in and disk fault injection; no-panic / no-hang / still-usable oracles")
+order = ["C08","C09","C10","C12","C16","C19","C20"]
 m = {
  "version":1,
  "setup_cmd":"cd /verif && ./setup.sh",
